@@ -942,6 +942,11 @@ pub fn helper_name_rule(cx: &Cx, rep: &mut Report, owner: &str, want: &str) {
 /// `self`, written there stops resolving when the item comes out of a `macro_rules!` macro whose fragment has another context.
 /// Only paths rooted at `::`, names defined inside the same template, and interpolated tokens are safe.
 pub fn span_hygiene_rule(cx: &Cx, rep: &mut Report, variants: &[&str]) {
+    // the call graph is by name: when it loses the way from the builders to the templates (nothing found in scope although
+    // comparison templates are expected), every template of the crate is judged instead
+    if !span_hygiene_scan(cx, rep, variants, variants.contains(&"CompareOp")) { span_hygiene_scan(cx, rep, &[], false); }
+}
+fn span_hygiene_scan(cx: &Cx, rep: &mut Report, variants: &[&str], retry_if_empty: bool) -> bool {
     // only the templates the property's own builders can reach (all of them when no role is named)
     let scope: Option<std::collections::BTreeSet<String>> = if variants.is_empty() { None } else {
         let cg = crate::roles::CallGraph::build(&cx.ix);
@@ -996,12 +1001,14 @@ pub fn span_hygiene_rule(cx: &Cx, rep: &mut Report, variants: &[&str]) {
             }
         }
     }
+    if retry_if_empty && n == 0 { return false; }
     if variants.is_empty() || variants.contains(&"CompareOp") { rep.floor("templates emitted under a user-derived span", n, 8); }
     bad.sort(); bad.dedup();
     if bad.is_empty() { rep.pass("TP-span-hygiene"); }
     for (qual, name, line) in bad {
         rep.fail("TP-span-hygiene", &qual, &name, &format!("`{name}` is written literally inside a template emitted under a user-derived span (quote_spanned! at line {line}): it takes the hygiene of the user's tokens and stops resolving when the item is produced by a macro_rules! macro (E0424 / E0425 in generated code); interpolate it instead"), &format!("{} {}", cx.ix.fns.values().flatten().find(|g| g.qual == qual).map(|g| g.file.clone()).unwrap_or_default(), qual), json!({}));
     }
+    true
 }
 
 /// DM-attr-fields: what a comparison helper attribute says is what the parsed record holds - each of ignore / reverse /
